@@ -81,6 +81,8 @@ func (c *Connection) handleCallReq(frame *Frame) bool {
 
 	// Close may have been called between the time we checked the state and us creating the exchange.
 	if c.readState() != connectionActive {
+		// Refuse the call like the check above does, rather than dropping it silently.
+		c.SendSystemError(frame.Header.ID, callReqSpan(frame), ErrChannelClosed)
 		mex.shutdown()
 		return true
 	}
